@@ -139,6 +139,10 @@ class GlomError(Exception):
         exc_wrapper_type = type(f"GlomError.wrap({exc_type.__name__})", bases, {})
         try:
             wrapper = exc_wrapper_type(*exc.args)
+            # the constructor may have transformed the args, and
+            # attributes may have been attached after construction
+            wrapper.args = exc.args
+            wrapper.__dict__.update(exc.__dict__)
             wrapper.__wrapped = exc
             return wrapper
         except Exception:  # maybe exception can't be re-created
@@ -2288,6 +2292,7 @@ def glom(target, spec, **kwargs):
             # stack trace with the explicit "raise err" below
             try:
                 err = copy.copy(e)
+                err.args = e.args  # the constructor may have transformed them
             except Exception:  # maybe exception can't be re-created
                 err = e
             err._set_wrapped(e)
